@@ -535,6 +535,12 @@ int main(int argc, char **argv) {
                     }
                     out += x; continue;
                 }
+                if (op == "udump") {          // the first two user-defined slot attributes of every slot (C06)
+                    std::string x = " | U"; size_t st4 = 0;
+                    for (const gr_slot *q = gr_seg_first_slot(seg); q && ++st4 < 100000; q = gr_slot_next_in_segment(q))
+                        x += " " + std::to_string(gr_slot_attr(q, seg, gr_slatUserDefn, 0)) + "," + std::to_string(gr_slot_attr(q, seg, gr_slatUserDefn, 1));
+                    out += x; continue;
+                }
                 if (op == "redump") { out += " | " + dump(seg, face, font, true); continue; }     // the dump again, after the preceding ops
                 if (op == "posdump") {
                     // inputs and outputs of final positioning, for the C15 correspondence (Model/PosModel.v): design-unit inputs of every
